@@ -18,6 +18,8 @@ structure Abc where
   sym : List UInt8                   -- Kp symbols
   inmap : List UInt8                 -- 128 entries
   complement : Option (List UInt8)   -- Kp entries, or NULL
+  degen : List (List Bool) := []     -- Kp rows of K flags: `abc->degen[x][y]`
+  ndegen : List Nat := []            -- Kp entries: `abc->ndegen[x]`
   deriving Repr, DecidableEq, Inhabited
 
 def dsqSentinel : UInt8 := 255
